@@ -314,6 +314,15 @@ enum OpMask
 };
 
 inline void erase_from(std::vector<int64_t>& v, int64_t id) { v.erase(std::remove(v.begin(), v.end(), id), v.end()); }
+inline void label_position(Ctx& ctx, const std::vector<int64_t>& lst, int64_t id, const std::string& what)
+{
+    if (lst.size() < 3)
+        return;
+    auto it = std::find(lst.begin(), lst.end(), id);
+    if (it == lst.end())
+        return;
+    ctx.label(what + (it == lst.begin() ? ":first-of>=3" : (it + 1 == lst.end() ? ":last-of>=3" : ":middle-of>=3")));
+}
 
 // registers a crate the library just created
 inline void adopt_new_crate(World& w, Ctx& ctx, dj::crate cr, const std::string& name, int64_t parent, int64_t after, const std::string& where)
@@ -331,6 +340,7 @@ inline void adopt_new_crate(World& w, Ctx& ctx, dj::crate cr, const std::string&
     auto& lst = w.order[parent];
     if (after != 0)
     {
+        label_position(ctx, lst, after, "insert-after");
         auto it = std::find(lst.begin(), lst.end(), after);
         if (it != lst.end() && it + 1 != lst.end())
             w.nonlast_change = true;
@@ -548,6 +558,8 @@ inline void apply_crate_op(World& w, S& s, Ctx& ctx, int mask)
             }
             bool dup = w.sibling_name_exists(tid, c->name, c->id);
             auto& oldlist = w.order[c->parent];
+            if (tid != c->parent)
+                label_position(ctx, oldlist, c->id, "move");
             bool was_last = !oldlist.empty() && oldlist.back() == c->id;
             if (!w.v2 && !st.empty() && ctx.exclude("v1_set_parent_with_descendants"))
                 return;
@@ -607,6 +619,7 @@ inline void apply_crate_op(World& w, S& s, Ctx& ctx, int mask)
             auto& lst = w.order[c->parent];
             if (!lst.empty() && lst.back() != id)
                 w.nonlast_change = true;
+            label_position(ctx, lst, id, "remove-sibling");
             dj::crate h = c->handle;
             try
             {
@@ -746,6 +759,8 @@ inline void apply_crate_op(World& w, S& s, Ctx& ctx, int mask)
             if (!is_member)
                 ctx.label("remove-non-member");
             auto& ent = w.entries[c->id];
+            if (is_member)
+                label_position(ctx, ent, t->id, "remove-entity");
             if (is_member && !ent.empty() && ent.back() != t->id && ent.size() >= 3)
             {
                 w.nonlast_change = true;
@@ -873,6 +888,34 @@ inline void prop_c09(const vf::Case& c, Ctx& ctx)
     auto schema = pick_schema(h, ctx, true);
     World w(schema, e::create_temporary_database(schema));
     w.hist = "schema " + sname(schema);
+    {
+        // start from lists long enough to have a first, a middle and a last element
+        size_t nr = 2 + h.below(4), ns = h.below(5), nt = h.below(6);
+        for (size_t i = 0; i < nr; ++i)
+        {
+            std::string name = "R" + std::to_string(++w.serial);
+            adopt_new_crate(w, ctx, w.db.create_root_crate(name), name, 0, 0, "prelude");
+        }
+        for (size_t i = 0; i < ns; ++i)
+        {
+            std::string name = "S" + std::to_string(++w.serial);
+            adopt_new_crate(w, ctx, w.crates[0].handle.create_sub_crate(name), name, w.crates[0].id, 0, "prelude");
+        }
+        for (size_t i = 0; i < nt; ++i)
+        {
+            dj::track_snapshot snap;
+            snap.relative_path = "prelude/o" + std::to_string(++w.serial) + ".mp3";
+            dj::track t = w.db.create_track(snap);
+            w.issued_track_ids.insert(t.id());
+            w.tracks.push_back(TrackM{t, t.id(), true});
+            w.crates[1].handle.add_track(t);
+            w.members.insert({w.crates[1].id, t.id()});
+            w.entries[w.crates[1].id].push_back(t.id());
+        }
+        w.hist += " | prelude(" + std::to_string(nr) + " roots, " + std::to_string(ns) + " subs of " + std::to_string(w.crates[0].id) + ", " + std::to_string(nt) +
+                  " tracks in crate " + std::to_string(w.crates[1].id) + ")";
+        check_order(w, w.hist);
+    }
     for (size_t r = 1; r < c.size(); ++r)
     {
         S s(c[r]);
